@@ -247,7 +247,9 @@ var c20Hostile = []string{
 	`"2024-13-45"`, `"2023-02-30"`, `"0000-00-00"`, `"9999-12-31"`, `"99999999999999999999y"`, `"99999999y99999999m99999999d"`,
 	`"!binary:"`, `"!binary:A"`, `"!binary:===="`, `"!binary:AAAA"`, `"!bogus"`, `"!null"`, `"!empty"`, `"hash"`,
 	`"` + strings.Repeat("A", 100000) + `"`, `"\u0000"`, `"😂"`, `"CN=x,CN="`, `"256.1.1.300"`, `"1.2.3"`,
-	`null`, `[]`, `{}`, `true`, `{"a":{"b":[1]}}`, `[[]]`, `["x"]`, `"9223372036854772807y"`, `"10.0.0.256"`, `"10.0.0.-1"`,
+	`null`, `[]`, `{}`, `true`, `{"a":{"b":[1]}}`, `[[]]`, `["x"]`, `"9223372036854772807y"`, `"10.0.0.256"`, `"10.0.0.-1"`, `"18446744073709551616d"`, `"9223372036854775807m"`,
+	// subject strings around the '#hex' value form and malformed pairs
+	`"CN=#"`, `"CN=#0"`, `"CN=#13"`, `"O=#1303616263, CN=#"`, `"=x"`, `"CN=a=b"`, `"CN=#zz"`,
 }
 
 var c20OIDSlot = regexp.MustCompile(`(^|\.)(oid|professionOids\.\[\]|\.signatureAlgorithm|\.tbs\.signature|algorithm)$|manipulations\.(\.signatureAlgorithm|\.tbs\.signature|\.tbs\.subjectPublicKey\.algorithm)$|extendedKeyUsage\.content\.\[\]$`)
@@ -552,6 +554,21 @@ func c20Exec(x *engine.Ctx, cc any) {
 					}
 				}
 			}
+			if strings.HasSuffix(ps, "validity.duration") && c20BadDuration[h] {
+				// a duration that overflows passes the schema ([0-9]+): it must surface as an error (or a
+				// skipped file), not as a certificate whose end was computed from a wrapped-around number
+				world := c20World(d, text)
+				res, w := c20RunWorld(x, world, []int{9}, what)
+				target := "mut.pem"
+				if d.Profile {
+					target = "ent.pem"
+				}
+				if res.Panic == "" && res.OK() {
+					if f, ok := w.Files[target]; ok && refx509.SplitPem(f.Data).NumCerts > 0 {
+						x.ViolationCase("C20/out-of-range-accepted slot=validity-duration", fmt.Sprintf("%s: the run succeeded and issued a certificate; the number wrapped around", what), &c20Case{Kind: "one", Files: world, Strats: []int{9}, What: what + " [expect error]"})
+					}
+				}
+			}
 			if c20IPSlot(d.Tree, p) && c20BadIP[h] {
 				// an address octet outside 0..255 passes the schema: it must surface as an error (or a
 				// skipped file), not as a certificate carrying the octet modulo 256
@@ -663,6 +680,9 @@ func c20IPSlot(tree any, p c20Path) bool {
 	return ok && m["type"] == "ip" && strings.Contains(c20PathStr(p), "subjectAlternativeName")
 }
 
+// durations whose numbers do not fit an int or whose end no time value can hold
+var c20BadDuration = map[string]bool{`"99999999999999999999y"`: true, `"9223372036854772807y"`: true, `"18446744073709551616d"`: true, `"9223372036854775807m"`: true, `"99999999y99999999m99999999d"`: true}
+
 var c20BadIP = map[string]bool{`"256.1.1.300"`: true, `"10.0.0.256"`: true, `"10.0.0.-1"`: true}
 
 func c20SlotClassFromWhat(what string) string {
@@ -678,6 +698,8 @@ func c20SlotClass(ps string) string {
 	switch {
 	case strings.Contains(ps, "subjectAlternativeName"):
 		return "san-ip-octet"
+	case strings.HasSuffix(ps, "validity.duration"):
+		return "validity-duration"
 	case strings.Contains(ps, "manipulations"):
 		return "manipulation-oid"
 	case strings.Contains(ps, "custom"):
